@@ -80,7 +80,7 @@ def main(argv=None):
     else:
         import multiprocessing as mp
         ctxmp = mp.get_context("fork")
-        with ctxmp.Pool(processes=nproc) as pool:
+        with ctxmp.Pool(processes=nproc, initializer=_limit_memory) as pool:
             for r in pool.imap_unordered(_work, range(len(jobs))):
                 results.append(r)
     results.sort(key=lambda r: r["index"])
@@ -181,6 +181,18 @@ _JOBS = []
 _CTX = None
 MAX_REPLAYED_PER_OBLIGATION = 48
 REPLAY_BUDGET_S = {"quick": 90, "thorough": 900}
+
+
+def _limit_memory():
+    """Address-space cap per worker (VERIF_MEM_GB, default 9): a path explosion ends as an inconclusive obligation
+    (MemoryError / solver out-of-memory), not as an exhausted machine (62 GB, no swap, 16 workers)."""
+    import resource
+    try:
+        gb = float(os.environ.get("VERIF_MEM_GB", "9"))
+        lim = int(gb * (1 << 30))
+        resource.setrlimit(resource.RLIMIT_AS, (lim, lim))
+    except Exception:
+        pass
 
 
 def _work(i):
